@@ -904,6 +904,28 @@ func TestC18_FormatNumber(t *testing.T) {
 			}
 		}
 		rec.Exhaustive("pictures_outside_the_grammar", len(c18InvalidPictures)*3)
+		// two sub-pictures of which one is outside the grammar: the picture is
+		// invalid whatever the sign of the number selects
+		nsub := 0
+		for _, p := range c18InvalidPictures {
+			if p == "" || strings.Contains(p, ";") {
+				continue
+			}
+			for _, valid := range []string{"0.00", "#,##0", "(0.0)"} {
+				for _, pic := range []string{valid + ";" + p, p + ";" + valid} {
+					for _, x := range []float64{5, -5, 0, -0.25} {
+						c := fmtCase{X: x, Invalid: pic}
+						m, _ := fmtRun(is, c)
+						nsub++
+						rec.Case(fmt.Sprintf("invalid-sub|%s|%v", pic, x), true, func() interface{} { return map[string]interface{}{"expr": c.expr(), "x": x, "expect": "error"} })
+						if m != "" && rec.FailNow(c, m) >= 8 {
+							return
+						}
+					}
+				}
+			}
+		}
+		rec.Exhaustive("one_invalid_sub_picture", nsub)
 	}
 	rapidRun(t, rec, 40000, 500000, func(rt *rapid.T) {
 		c := fmtCase{Pos: genSubPic(rt, "pos")}
